@@ -4,8 +4,10 @@ package main
 
 import (
 	"context"
+	"encoding/binary"
 	"errors"
 	"fmt"
+	"sort"
 	"sync"
 
 	"github.com/NethermindEth/juno/blockchain"
@@ -194,21 +196,117 @@ type proxy struct {
 	mode    string
 	cancel  context.CancelFunc
 	image   *memory.Database
+	imageAt int         // applied commits when the crash image was taken
 	after   func(n int) // called after every applied commit while armed
+	// recording (history-pruner migration): every batch Write attempt with a summary of its content, a
+	// probe of the database after every applied one, and every state-update read (= block handed to a
+	// stager / restorer worker). Mode "cancel-get" cancels the context at the at-th such read.
+	rec   bool
+	log   []commitRec
+	gets  []uint64
+	probe func() []string
+}
+
+type recOp struct {
+	kind     byte // 'p' put, 'r' delete range
+	key, val []byte
+}
+
+type commitRec struct {
+	toks    []string
+	applied bool
+	getsAt  int // state-update reads seen when Write was called
+	probe   []string
+}
+
+func (p *proxy) Get(key []byte, cb func([]byte) error) error {
+	if p.armed && p.rec && len(key) == 9 && key[0] == byte(db.StateUpdatesByBlockNumber) {
+		p.mu.Lock()
+		p.gets = append(p.gets, binary.BigEndian.Uint64(key[1:]))
+		if p.mode == "cancel-get" && len(p.gets) == p.at && p.cancel != nil {
+			p.cancel()
+		}
+		p.mu.Unlock()
+	}
+	return p.Database.Get(key, cb)
+}
+
+func be8(b []byte) uint64 { return binary.BigEndian.Uint64(b[len(b)-8:]) }
+
+// summarize: the content of a batch in the vocabulary of the model's batch summaries
+func summarize(ops []recOp) []string {
+	set := map[string]bool{}
+	var h2n []uint64
+	for _, o := range ops {
+		k0 := o.key[0]
+		switch o.kind {
+		case 'r':
+			switch {
+			case k0 == byte(db.BlockCommitments) && len(o.val) == 9:
+				set[fmt.Sprintf("P%d", be8(o.val))] = true
+			case len(o.key) == 1:
+				switch db.Bucket(k0) {
+				case db.TransactionBlockNumbersAndIndicesByHash, db.L1HandlerTxnHashByMsgHash, db.BlockHeaderNumbersByHash:
+					set["WL"] = true
+				case db.DeprecatedContractStorageHistory, db.DeprecatedContractNonceHistory, db.DeprecatedContractClassHashHistory:
+					set["WH"] = true
+				case db.Temporary:
+					set["WS"] = true
+				}
+			}
+		case 'p':
+			switch db.Bucket(k0) {
+			case db.Temporary:
+				set[fmt.Sprintf("S%d", be8(o.key))] = true
+			case db.BlockHeaderNumbersByHash:
+				h2n = append(h2n, be8(o.val))
+			}
+		}
+	}
+	for _, n := range h2n {
+		if set["WH"] {
+			set[fmt.Sprintf("seed%d", n)] = true
+		} else {
+			set[fmt.Sprintf("R%d", n)] = true
+		}
+	}
+	var out []string
+	for t := range set {
+		out = append(out, t)
+	}
+	sort.Strings(out)
+	return out
 }
 
 func (p *proxy) arm(at int, mode string, cancel context.CancelFunc) {
 	p.armed, p.commits, p.at, p.mode, p.cancel, p.image = true, 0, at, mode, cancel, nil
 }
-func (p *proxy) disarm() { p.armed = false; p.after = nil }
+func (p *proxy) disarm() { p.armed = false; p.after = nil; p.rec = false; p.probe = nil }
 
 type pbatch struct {
 	db.Batch
-	p *proxy
+	p   *proxy
+	ops []recOp
 }
 
-func (p *proxy) NewBatch() db.Batch               { return &pbatch{p.Database.NewBatch(), p} }
-func (p *proxy) NewBatchWithSize(s int) db.Batch { return &pbatch{p.Database.NewBatchWithSize(s), p} }
+func cloneB(b []byte) []byte { return append([]byte(nil), b...) }
+
+func (b *pbatch) Put(k, v []byte) error {
+	if b.p.rec {
+		b.ops = append(b.ops, recOp{'p', cloneB(k), cloneB(v)})
+	}
+	return b.Batch.Put(k, v)
+}
+
+func (b *pbatch) DeleteRange(s, e []byte) error {
+	if b.p.rec {
+		b.ops = append(b.ops, recOp{'r', cloneB(s), cloneB(e)})
+	}
+	return b.Batch.DeleteRange(s, e)
+}
+
+func (p *proxy) NewBatch() db.Batch              { return &pbatch{Batch: p.Database.NewBatch(), p: p} }
+func (p *proxy) NewBatchWithSize(s int) db.Batch { return &pbatch{Batch: p.Database.NewBatchWithSize(s), p: p} }
 
 func (b *pbatch) Write() error {
 	p := b.p
@@ -219,11 +317,35 @@ func (b *pbatch) Write() error {
 	defer p.mu.Unlock()
 	p.commits++
 	n := p.commits
+	var cr commitRec
+	if p.rec {
+		cr = commitRec{toks: summarize(b.ops), getsAt: len(p.gets)}
+	}
 	if n == p.at && p.mode == "err" {
+		if p.rec {
+			p.log = append(p.log, cr)
+		}
 		return errInjected
 	}
 	if err := b.Batch.Write(); err != nil {
 		return err
+	}
+	if p.rec {
+		cr.applied = true
+		if p.probe != nil {
+			cr.probe = p.probe()
+		}
+		p.log = append(p.log, cr)
+	}
+	// mode "crash-wipe": the process dies right after the batch that wipes the scratch namespace (the last
+	// write of the migration, before the runner records it as applied)
+	if p.rec && p.mode == "crash-wipe" && p.image == nil {
+		for _, t := range cr.toks {
+			if t == "WS" {
+				p.image = p.Database.Copy()
+				p.imageAt = len(p.log)
+			}
+		}
 	}
 	if p.after != nil {
 		p.after(n)
@@ -234,6 +356,7 @@ func (b *pbatch) Write() error {
 			p.cancel()
 		case "crash":
 			p.image = p.Database.Copy()
+			p.imageAt = n
 		}
 	}
 	return nil
